@@ -33,7 +33,7 @@ def hashKey (h : UInt64) (k : List UInt8) : UInt64 :=
   k.foldl (fun h b => fnv h b.toUInt64) (fnv h (UInt64.ofNat k.length))
 
 /-- string-API view of a key argument (`n = -1`): the bytes before the first NUL -/
-def asCStr (k : List UInt8) : List UInt8 := k.takeWhile (· != 0)
+def asCStr (k : List UInt8) : List UInt8 := Keyhash.cstrOf k
 
 def getAll (kh : Keyhash.KH) : Option UInt64 := Id.run do
   let mut h := fnv0
